@@ -229,8 +229,6 @@ def space_C(tier):
                             if ts != "5m" and (gb or al or gen is not None):
                                 continue
                             c = {"type": t, "rules": ["rule1", "rule2"], "timespan": ts}
-                            if isinstance(cond, str) and False:
-                                c.pop("rules")
                             if cond is not None:
                                 c["condition"] = cond
                             if gb:
@@ -241,6 +239,10 @@ def space_C(tier):
                                 c["generate"] = gen
                             d = {"title": "corr", "id": RID + "9", "name": "corr", "status": "test", "correlation": c}
                             yield "correlation", d, f"corr/{t}", "generate" if gen is not None else ("aliases" if al else "plain")
+                            if isinstance(cond, str):  # rules inferred from the extended condition: no rules list in the document
+                                d2 = copy.deepcopy(d)
+                                d2["correlation"].pop("rules")
+                                yield "correlation", d2, f"corr/{t}/rules-from-condition", "no-rules-list"
     for rules in ("any", [RID + "1"], ["rule1", "rule2"], []):
         for cond in ("flt", "not flt", "not 1 of flt*", "flt and not flt2"):
             for ls in LOGSOURCES[:3]:
